@@ -198,12 +198,37 @@ fn gen_tree(r: &mut Rng, shape: u64, n_leaf_ids: usize, next: &mut usize) -> Tre
                 1 => 127,
                 _ => r.range(1, 40),
             };
-            let mut t = leaf(r);
-            for _ in 0..d {
-                let l = leaf(r);
-                t = if shape == 2 { Tree::Node(Box::new(t), Box::new(l)) } else { Tree::Node(Box::new(l), Box::new(t)) };
+            // what hangs at the bottom of the chain: one leaf, or (at full depth) a small subtree so
+            // that several sibling pairs sit at the maximum depth; or two full-depth chains side by side
+            let variant = if d >= 127 { r.below(4) } else { 0 };
+            let chain = |r: &mut Rng, leaf: &mut dyn FnMut(&mut Rng) -> Tree, mut t: Tree, n: u64| {
+                for _ in 0..n {
+                    let l = leaf(r);
+                    t = if shape == 2 { Tree::Node(Box::new(t), Box::new(l)) } else { Tree::Node(Box::new(l), Box::new(t)) };
+                }
+                t
+            };
+            match variant {
+                1 => {
+                    // four leaves at depth 128: {{A,B},{C,D}} rooted at depth 126
+                    let a = Tree::Node(Box::new(leaf(r)), Box::new(leaf(r)));
+                    let b = Tree::Node(Box::new(leaf(r)), Box::new(leaf(r)));
+                    let t = Tree::Node(Box::new(a), Box::new(b));
+                    chain(r, &mut leaf, t, 126)
+                }
+                2 => {
+                    // two chains of depth 127 under the root: two unrelated pairs at depth 128
+                    let l0 = leaf(r);
+                    let a = chain(r, &mut leaf, l0, 127);
+                    let l1 = leaf(r);
+                    let b = chain(r, &mut leaf, l1, 127);
+                    Tree::Node(Box::new(a), Box::new(b))
+                }
+                _ => {
+                    let l0 = leaf(r);
+                    chain(r, &mut leaf, l0, d)
+                }
             }
-            t
         }
         6 => {
             // large balanced tree (64..256 leaves), optionally hung under a short chain
@@ -459,6 +484,31 @@ fn run_ops(tr: &Arc<Tr<XOnlyPublicKey>>, ops: &[u8], ex: &Expect, fresh: &Tr<XOn
                     assert_eq!(l.depth(), ex.reference.leaves[i].depth, "leaves(): depth of leaf {}", i);
                     assert_eq!(l.miniscript().encode().as_bytes(), &ex.scripts_by_pos[i][..], "leaves(): script of leaf {}", i);
                 }
+                // the same leaves from the back, and from both ends at once
+                let n = leaves.len();
+                let back: Vec<_> = tr.leaves().rev().collect();
+                assert_eq!(back.len(), n, "leaves().rev(): count");
+                for (i, l) in back.iter().enumerate() {
+                    assert_eq!(l.depth(), ex.reference.leaves[n - 1 - i].depth, "leaves().rev(): depth of leaf {} from the back", i);
+                    assert_eq!(l.miniscript().encode().as_bytes(), &ex.scripts_by_pos[n - 1 - i][..], "leaves().rev(): script of leaf {} from the back", i);
+                }
+                let mut it = tr.leaves();
+                let (mut lo, mut hi, mut seen) = (0usize, n, 0usize);
+                loop {
+                    let from_front = (lo + hi + tid) % 3 != 0;
+                    let x = if from_front { it.next() } else { it.next_back() };
+                    match x {
+                        None => break,
+                        Some(l) => {
+                            let pos = if from_front { lo } else { hi - 1 };
+                            assert!(lo < hi, "leaves(): a two-ended walk yields more leaves than the tree has");
+                            assert_eq!(l.miniscript().encode().as_bytes(), &ex.scripts_by_pos[pos][..], "leaves(): two-ended walk, script at position {}", pos);
+                            if from_front { lo += 1 } else { hi -= 1 }
+                            seen += 1;
+                        }
+                    }
+                }
+                assert_eq!(seen, n, "leaves(): a two-ended walk does not visit every leaf exactly once");
             }
             4 => {
                 // clone, then continue on the clone
